@@ -21,6 +21,36 @@ os.environ.setdefault("LERAX_VERIF", "1")
 from . import core  # noqa: E402
 
 
+def _raised_inside_lerax(pid: str, ex: BaseException):
+    """The drivers only feed the implementation inputs for which the property demands an answer (they all run to completion
+    on the unchanged tree).  An exception whose innermost non-library frame lies in the lerax package itself is therefore the
+    implementation refusing such an input: a violation ("... for every valid ..."), not a machinery failure.  Exceptions
+    raised in harness code (lvf), including harness code called back from lerax, stay machinery failures."""
+    if isinstance(ex, core.Machinery):
+        return None
+    try:
+        import lerax
+        root = os.path.dirname(os.path.abspath(lerax.__file__)) + os.sep
+    except Exception:
+        return None
+    here = os.path.dirname(os.path.abspath(__file__)) + os.sep
+    frames = traceback.extract_tb(ex.__traceback__)
+    user = [f for f in frames if "site-packages" not in f.filename and not f.filename.startswith("<")]
+    if not user:
+        return None
+    last = user[-1]
+    fn = os.path.abspath(last.filename)
+    if not fn.startswith(root) or fn.startswith(here):
+        return None
+    rel = fn[len(root):]
+    caller = next((f for f in reversed(user) if os.path.abspath(f.filename).startswith(here)), None)
+    what = (f"the implementation raised {type(ex).__name__}: {str(ex).splitlines()[0][:200] if str(ex) else ''} in lerax/{rel}:"
+            f"{last.lineno} ({last.name}) on an input the drivers of {pid} complete on the unchanged tree"
+            + (f"; called from {os.path.basename(caller.filename)}:{caller.lineno} ({caller.name})" if caller else ""))
+    return core.Violation(f"{pid}:raises:{type(ex).__name__}:{rel}:{last.name}", what, "exception",
+                          {"traceback": [f"{f.filename}:{f.lineno} {f.name}" for f in user[-12:]]})
+
+
 def main(argv=None) -> int:
     ap = argparse.ArgumentParser()
     ap.add_argument("pid")
@@ -37,8 +67,11 @@ def main(argv=None) -> int:
         mod = importlib.import_module(f"lvf.props.{pid.lower()}")
         if args.replay:
             payload = json.loads(open(args.replay).read())
-            rep = mod.replay(ctx, payload["driver"], payload["case"])
-        else:
+            if payload["driver"] == "exception":      # an implementation exception: re-run the whole check
+                args.replay_run = True
+            else:
+                rep = mod.replay(ctx, payload["driver"], payload["case"])
+        if not args.replay or getattr(args, "replay_run", False):
             try:
                 rep = mod.run(ctx)
                 from . import specmut
@@ -47,7 +80,10 @@ def main(argv=None) -> int:
                 # a vacuity guard / binding self-test could not run.  If real violations were already found (e.g. no accepted
                 # trace is left to corrupt because the tree is broken) they are the verdict; otherwise it is a machinery failure.
                 if not core.ALL_VIOLATIONS:
-                    raise
+                    v = _raised_inside_lerax(pid, ex)
+                    if v is None:
+                        raise
+                    traceback.print_exc()
                 rep = core.Report()
                 rep.violations = list(core.ALL_VIOLATIONS)
                 rep.notes.append(f"run incomplete: {str(ex)[:300]}")
